@@ -34,12 +34,12 @@ PROPS = {
     "C03": dict(
         level="model_checking",
         level_text="bounded model checking by symbolic execution: for every catalogue definition and every input of up to L arbitrary bytes, the real lexer.New + StatefulLexer.Next (rule order, include splicing, Return, Push/Pop, back-references, elision, error cases, span/position bookkeeping) is compared on every feasible path with a reference lexer written from the property statement; the solver decides which byte classes are feasible on each path",
-        level_note="trusted: the reference regex matcher that replaces package regexp on symbolic input (validated against the real regexp natively, and every counterexample is replayed against the real regexp before it is reported), the SSA executor (sampled paths replayed natively on every run), z3; bounds: 22 definitions, inputs <= 3 (quick) / <= 4 (thorough) bytes",
-        runs=[dict(pkg="lexer", files=["lexer/zz_verif_stateful.go", "lexer/zz_verif_lexdefs.go"], harness="^VH_C03_",
-                   reach={h: ["error", "tokens"] for h in ["VH_C03_Literal", "VH_C03_Overlap", "VH_C03_PushPop", "VH_C03_Return", "VH_C03_IncludeNested", "VH_C03_Backref"]})],
-        bounds=dict(quick="22 catalogue definitions (literals, overlapping rules, classes, ., multi-byte class, anchors/word boundaries, alternation, empty-matching rule, case folding, Push/Pop, Return, Include first/middle/nested, Pop and Return in Root, optional group in a Push rule, back-references incl. missing group and metacharacter group) x all inputs of <= 3 arbitrary bytes (incl. invalid UTF-8)",
-                    thorough="same catalogue x all inputs of <= 4 arbitrary bytes"),
-        outside="definitions outside the catalogue; inputs longer than the bound; correctness of package regexp itself; back-reference groups containing bytes >= 0x80",
+        level_note="trusted: the reference regex matcher that replaces package regexp on symbolic input (validated against the real regexp natively, and every counterexample is replayed against the real regexp before it is reported), the SSA executor (sampled paths replayed natively on every run), z3; bounds: 35 catalogue definitions + 100 (quick) / 400 (thorough) generated definitions, inputs <= 3 (quick) / <= 4 (thorough) bytes",
+        runs=[dict(pkg="lexer", files=["lexer/zz_verif_stateful.go", "lexer/zz_verif_lexdefs.go", "lexer/zz_verif_lexgen.go"], harness="^VH_C03_",
+                   reach={h: ["error", "tokens"] for h in ["VH_C03_Literal", "VH_C03_Overlap", "VH_C03_PushPop", "VH_C03_Return", "VH_C03_IncludeNested", "VH_C03_Backref", "VH_C03_Generated", "VH_C03_ElidedActions"]})],
+        bounds=dict(quick="100 generated definitions (deterministic generator: 3 states, 1-4 rules per state over 31 patterns, Push/Pop/Return/Include, elided rules with and without actions, back-references) and 35 catalogue definitions (literals, overlapping rules, classes, ., multi-byte class, anchors/word boundaries, alternation, empty-matching rule, case folding, Push/Pop, Return, Include first/middle/nested, Pop and Return in Root, optional group in a Push rule, back-references incl. missing group and metacharacter group) x all inputs of <= 3 arbitrary bytes (incl. invalid UTF-8)",
+                    thorough="400 generated definitions + same catalogue x all inputs of <= 4 arbitrary bytes"),
+        outside="definitions outside the catalogue and the generated family; inputs longer than the bound; correctness of package regexp itself; back-reference groups containing bytes >= 0x80",
         assumptions=["package regexp is replaced on symbolic input by the engine's reference matcher (refre.go), leftmost-first semantics over regexp/syntax trees",
                      "map iteration order in lexer.New is insertion order (New sorts keys before numbering symbols)"],
         explanation="Differential check of the real stateful lexer against a reference lexer derived from the property statement, on symbolic input bytes.",
@@ -48,7 +48,7 @@ PROPS = {
         level="model_checking",
         level_text="bounded model checking by symbolic execution: token values, offsets, ordering, EOF placement, line/column and filename are asserted from the input alone on every feasible path of the real StatefulLexer.Next for all inputs up to L bytes, plus a unit obligation for Position.Advance from an arbitrary position over an arbitrary span",
         level_note="trusted: as C03; the text/scanner-based lexer is outside the claim (stdlib scanner not encoded); generated lexers are covered by the C05 run",
-        runs=[dict(pkg="lexer", files=["lexer/zz_verif_stateful.go", "lexer/zz_verif_lexdefs.go"], harness="^VH_C04_",
+        runs=[dict(pkg="lexer", files=["lexer/zz_verif_stateful.go", "lexer/zz_verif_lexdefs.go", "lexer/zz_verif_lexgen.go"], harness="^VH_C04_",
                    reach={"VH_C04_Advance": ["same-line", "new-line"], "VH_C04_Literal": ["ok", "error"], "VH_C04_Multibyte": ["ok", "error"]})],
         bounds=dict(quick="Position.Advance: any 64-bit start position x any span of <= 4 arbitrary bytes; 9 catalogue definitions x all inputs of <= 3 arbitrary bytes",
                     thorough="Position.Advance: spans <= 5 bytes; inputs <= 4 bytes"),
@@ -62,23 +62,23 @@ PROPS = {
         level_note="trusted: as C03; the inductive step covers histories of any length only for the stack shapes in the bound (depth <= 2, <= 2 groups of <= 1 byte)",
         runs=[dict(pkg="lexer/internal/zzverifgen", pkg_name="zzverifgen", files=["gen/zz_verif_gen.go"], harness="^VH_C07_Gen_", generate="c05",
                    reach={"VH_C07_Gen_Literal": ["eof", "error"], "VH_C07_Gen_PushPop": ["eof", "error"]}),
-              dict(pkg="lexer", files=["lexer/zz_verif_stateful.go", "lexer/zz_verif_lexdefs.go"], harness="^VH_C07_",
-                   reach={"VH_C07_Run_Literal": ["eof", "error"], "VH_C07_Run_PushPop": ["eof", "error"], "VH_C07_Step_PushPop": ["token"]})],
-        bounds=dict(quick="runtime lexer: 12 definitions x inputs <= 3 bytes (whole run); generated lexers: 26 definitions x inputs <= 3 bytes (whole run of the emitted code); 6 definitions x stack depth <= 2 x <= 2 groups of <= 1 byte x remaining input <= 3 bytes (step)",
-                    thorough="inputs <= 4 bytes"),
-        outside="definitions outside the catalogue; termination beyond the instruction budget is reported as inconclusive, not assumed",
+              dict(pkg="lexer", files=["lexer/zz_verif_stateful.go", "lexer/zz_verif_lexdefs.go", "lexer/zz_verif_lexgen.go"], harness="^VH_C07_",
+                   reach={"VH_C07_Run_Literal": ["eof", "error"], "VH_C07_Run_PushPop": ["eof", "error"], "VH_C07_Step_PushPop": ["token"], "VH_C07_Run_Generated": ["eof", "error"]})],
+        bounds=dict(quick="runtime lexer: 14 catalogue + 100 generated definitions x inputs <= 3 bytes (whole run); generated lexers: 30 catalogue + 24 generated definitions x inputs <= 3 bytes (whole run of the emitted code); 6 definitions x stack depth <= 2 x <= 2 groups of <= 1 byte x remaining input <= 3 bytes (step)",
+                    thorough="inputs <= 4 bytes; 400 generated definitions for the runtime lexer, 120 through the generator"),
+        outside="definitions outside the catalogue and the generated family; termination beyond the instruction budget is reported as inconclusive, not assumed",
         assumptions=["package regexp replaced by the reference matcher on symbolic input"],
         explanation="No-panic / progress / EOF-idempotence obligations on whole runs and on one inductive step from an arbitrary state.",
     ),
     "C05": dict(
         level="translation_validation",
         level_text="translation validation of the lexer generator's output: the real generator is run on each catalogue definition, the emitted Go source is loaded into the symbolic executor, and for every input of up to L arbitrary bytes the emitted lexer is compared with the runtime lexer (symbol table, token types, values, positions, elision, final EOF, error position, no panic); the only tolerated difference (possessive vs backtracking matching of some rule on that input) is decided per path by the engine's two reference matchers",
-        level_note="trusted: reference matchers (backtracking and possessive) standing in for package regexp on symbolic input, the SSA executor (sampled paths replayed natively through the emitted code), z3; bounds: 25 definitions x inputs <= 3 (quick) / <= 4 (thorough) bytes",
+        level_note="trusted: reference matchers (backtracking and possessive) standing in for package regexp on symbolic input, the SSA executor (sampled paths replayed natively through the emitted code), z3; bounds: 30 catalogue + 24 (quick) / 120 (thorough) generated definitions x inputs <= 3 (quick) / <= 4 (thorough) bytes",
         runs=[dict(pkg="lexer/internal/zzverifgen", pkg_name="zzverifgen", files=["gen/zz_verif_gen.go"], harness="^VH_C05_", generate="c05",
-                   reach={"VH_C05_Literal": ["tokens", "error"], "VH_C05_Possessive": ["tolerated", "tokens"], "VH_C05_PushPop": ["tokens"]})],
-        bounds=dict(quick="25 definitions of the generator's supported class (one per regexp operator the generator handles + multi-state Push/Pop/Return/Include + Pop/Return in Root) x all inputs of <= 3 arbitrary bytes",
-                    thorough="same definitions x all inputs of <= 4 arbitrary bytes"),
-        outside="definitions outside the catalogue; inputs longer than the bound; back-reference / non-greedy / empty-matching rules (documented as unsupported by the generator)",
+                   reach={"VH_C05_Literal": ["tokens", "error"], "VH_C05_Possessive": ["tolerated", "tokens"], "VH_C05_PushPop": ["tokens"], "VH_C05_G0": ["error"]})],
+        bounds=dict(quick="30 catalogue definitions of the generator's supported class (one per regexp operator the generator handles + multi-state Push/Pop/Return/Include + Pop/Return in Root + elided rules with actions + nullable repetition bodies) and 24 generated definitions (deterministic generator restricted to the supported class) x all inputs of <= 3 arbitrary bytes",
+                    thorough="same catalogue + 120 generated definitions x all inputs of <= 4 arbitrary bytes"),
+        outside="definitions outside the catalogue and the generated family; inputs longer than the bound; back-reference / non-greedy / empty-matching rules (documented as unsupported by the generator)",
         assumptions=["package regexp replaced by reference matchers on symbolic input; the tolerated-difference predicate is 'possessive and backtracking reference matchers disagree on the span of some rule the runtime lexer tried on this input'"],
         explanation="The SSA executed for the generated side is the SSA of the code the real generator emitted from the current tree.",
     ),
@@ -203,7 +203,7 @@ PROPS = {
         level_text="decided through a sufficient condition, not by enumerating schedules: (1) frame condition: after Build / lexer.New / package init every object reachable from the Parser, the lexer Definition and the package-level EBNF parser is frozen in the executor; on every feasible path of Parse*/Lex/String and LexString+Next over symbolic inputs a store into a frozen cell, a write to a frozen map or an append into a frozen slice's spare capacity ends the path as a violation, so concurrent calls work on disjoint mutable memory; (2) history independence: the same call repeated on the same object returns the same result, and for back-reference definitions lexing after an arbitrary earlier input equals lexing with a fresh definition (transparency of the one shared mutable structure, the sync.Map cache)",
         level_note="trusted: sync.Map is linearizable and *regexp.Regexp / reflect caches are safe for concurrent use (stdlib contracts); the executor's heap model (cells = Go variables; maps and slices tracked as described); real interleavings and the race detector are outside this technique; bounds as C01/C03",
         runs=[dict(pkg=".", files=["root/zz_verif_ref.go", "root/zz_verif_parse.go", "root/zz_verif_grammars.go", "root/zz_verif_entry.go", "root/zz_verif_conc.go"], harness="^VH_C09_", reach={"VH_C09_Parse_Alt": ["accepted", "rejected"], "VH_C09_Parse_Union": ["accepted"]}),
-              dict(pkg="lexer", files=["lexer/zz_verif_stateful.go", "lexer/zz_verif_lexdefs.go", "lexer/zz_verif_conc.go"], harness="^VH_C09_",
+              dict(pkg="lexer", files=["lexer/zz_verif_stateful.go", "lexer/zz_verif_lexdefs.go", "lexer/zz_verif_lexgen.go", "lexer/zz_verif_conc.go"], harness="^VH_C09_",
                    reach={"VH_C09_Frame_PushPop": ["lexed", "error"], "VH_C09_History_Backref": ["compared"], "VH_C09_History_Collide": ["compared"]}),
               dict(pkg="ebnf", files=["ebnf/zz_verif_ebnf.go"], harness="^VH_C09_", reach={"VH_C09_EBNFParser": ["parsed", "failed"]})],
         bounds=dict(quick="parser: 6 grammars x streams <= 5 tokens (3 Parse calls + String + Lex per path on one frozen parser); lexer: 5 definitions x inputs <= 3 bytes lexed twice on one frozen definition; cache: 2 back-reference definitions, first input <= 3 (2) bytes, second <= 3 (4) bytes over a 3-letter alphabet incl. NUL; ebnf: 4 texts on the frozen package-level parser",
@@ -251,6 +251,8 @@ C05_DEFS = ["Literal", "Overlap", "Classes", "Dot", "Multibyte", "Anchors", "Alt
             "Return", "ReturnNested", "ReturnSelf", "IncludeFirst", "IncludeMiddle", "IncludeNested", "PopInRoot", "ReturnInRoot", "OptionalGroupPush",
             "ElidedActions", "NullableStar", "Possessive", "Repeat", "EmptyAlt", "NoWordBoundary", "EndAnchors", "FoldClass", "DotAll", "NonASCIILit", "NegClass"]
 
+C05_GENERATED = {"quick": 24, "thorough": 120}
+
 GENPKG_DIR = "lexer/internal/zzverifgen"
 
 
@@ -261,15 +263,20 @@ def _gen_c05(spec, tier, seed, tmp, REPO, GOENV):
     cat_src = open(_os.path.join(verif, "harness", "lexer", "zz_verif_lexdefs.go")).read()
     names = _re.findall(r"^func vhDef(\w+)\(\) Rules", cat_src, _re.M)
     defs = [d for d in C05_DEFS if d in names]
+    # generated family (harness/lexer/zz_verif_lexgen.go, supported class only)
+    ngen = C05_GENERATED.get(tier, C05_GENERATED["quick"])
+    gen_src = open(_os.path.join(verif, "harness", "lexer", "zz_verif_lexgen.go")).read()
     # 1. dump the definitions as JSON with the real encoder (native test in package lexer)
     dump = _os.path.join(work, "zz_verif_dump_test.go")
     open(dump, "w").write('package lexer\n\nimport (\n\t"encoding/json"\n\t"os"\n\t"path/filepath"\n\t"testing"\n)\n\n'
                           'func TestVDumpDefs(t *testing.T) {\n\tfor name, r := range map[string]Rules{\n'
-                          + "".join('\t\t"%s": vhDef%s(),\n' % (d, d) for d in defs) +
+                          + "".join('\t\t"%s": vhDef%s(),\n' % (d, d) for d in defs)
+                          + "".join('\t\t"G%d": vhGenRules(%d, true),\n' % (i, i) for i in range(ngen)) +
                           '\t} {\n\t\tdata, err := json.Marshal(r)\n\t\tif err != nil {\n\t\t\tt.Fatal(err)\n\t\t}\n'
                           '\t\tif err := os.WriteFile(filepath.Join(os.Getenv("VERIF_OUT"), name+".json"), data, 0o644); err != nil {\n\t\t\tt.Fatal(err)\n\t\t}\n\t}\n}\n')
     ov = _os.path.join(work, "ov_dump.json")
     _json.dump({"Replace": {_os.path.join(REPO, "lexer", "zz_verif_lexdefs.go"): _os.path.join(verif, "harness", "lexer", "zz_verif_lexdefs.go"),
+                            _os.path.join(REPO, "lexer", "zz_verif_lexgen.go"): _os.path.join(verif, "harness", "lexer", "zz_verif_lexgen.go"),
                             _os.path.join(REPO, "lexer", "zz_verif_dump_test.go"): dump}}, open(ov, "w"))
     r = _sp.run(["go", "test", "-vet=off", "-count=1", "-run", "^TestVDumpDefs$", "-overlay", ov, "."],
                 env=dict(GOENV, VERIF_OUT=work), cwd=_os.path.join(REPO, "lexer"), text=True, capture_output=True)
@@ -283,7 +290,8 @@ def _gen_c05(spec, tier, seed, tmp, REPO, GOENV):
     overlay = {}
     violations = []
     ok_defs = []
-    for d in defs:
+    gdefs = ["G%d" % i for i in range(ngen)]
+    for d in defs + gdefs:
         out = _os.path.join(work, "gen_%s.go" % d)
         with open(_os.path.join(work, d + ".json")) as fin:
             r = _sp.run([genbin, "gen", "lexer", "zzverifgen", "--name", d], stdin=fin, env=GOENV, text=True, capture_output=True)
@@ -303,8 +311,21 @@ def _gen_c05(spec, tier, seed, tmp, REPO, GOENV):
     qf = _os.path.join(work, "qualified_lexdefs.go")
     open(qf, "w").write(q)
     overlay[_os.path.join(REPO, GENPKG_DIR, "zz_verif_lexdefs.go")] = qf
+    q = gen_src
+    q = _re.sub(r"^package lexer\b", 'package zzverifgen\n\nimport "github.com/alecthomas/participle/v2/lexer"', q, flags=_re.M)
+    q = _re.sub(r"\b(Rules|Rule|Action)\b", r"lexer.\1", q)
+    q = _re.sub(r"\b(Push|Pop|Return|Include)\(", r"lexer.\1(", q)
+    qf = _os.path.join(work, "qualified_lexgen.go")
+    open(qf, "w").write(q)
+    overlay[_os.path.join(REPO, GENPKG_DIR, "zz_verif_lexgen.go")] = qf
     entries = "package zzverifgen\n\n"
     for d in ok_defs:
+        if d in gdefs:
+            # one harness over the whole family would need a lexer chosen by a symbolic index;
+            # one entry point per generated definition keeps every path's code concrete
+            entries += "func VH_C05_%s() { vhC05(vhGenRules(%s, true), %sLexer) }\n" % (d, d[1:], d)
+            entries += "func VH_C07_Gen_%s() { vhC07Gen(%sLexer) }\n" % (d, d)
+            continue
         entries += "func VH_C05_%s() { vhC05(vhDef%s(), %sLexer) }\n" % (d, d, d)
         entries += "func VH_C07_Gen_%s() { vhC07Gen(%sLexer) }\n" % (d, d)
     entries += "\nfunc VH_C05_Canary() {\n\tin := vhInput()\n\tvAssert(len(in) < 2, \"canary: must fail\")\n}\n"
